@@ -16,6 +16,11 @@ import (
 type fsm struct {
 	peer *peer
 
+	// dir is this fsm's index (out or in) in the peer's per-direction arrays.
+	// It is set once before the fsm is started, so the fsm goroutine never
+	// has to read peer.fsms, which the peer goroutine mutates.
+	dir int
+
 	// the bgp ID received in the latest open message
 	remoteID uint32
 
